@@ -1,7 +1,11 @@
 --------------------------- MODULE C07_Negotiate ---------------------------
 (***************************************************************************)
-(* Stream protocol negotiation between a dialing host A and a listening    *)
-(* host B (p2p/host/basic/basic_host.go NewStream / newStreamHandler /     *)
+(* Stream protocol negotiation between two hosts A and B on one connection.*)
+(* Each host has a handler table and a protocols book about the other; a   *)
+(* stream has a dialer d and a listener Other(d); the constants Dialers /  *)
+(* Servers say which host may open / register (one-directional instances:  *)
+(* A dials, B serves; bidirectional: both).  Below "A" stands for the      *)
+(* dialer and "B" for the listener of the stream in question (p2p/host/basic/basic_host.go NewStream / newStreamHandler /     *)
 (* SetStreamHandler[Match] / RemoveStreamHandler, p2p/host/blank/blank.go, *)
 (* go-multistream's muxer, client and lazy client as a trusted contract).  *)
 (*                                                                         *)
@@ -37,23 +41,28 @@ EXTENDS Naturals, Sequences, FiniteSets, TLC
 CONSTANTS P,        \* protocol ids
           Ext,      \* set of <<n, p>>: id p is a proper extension of name n (/v/a -> /v/a/1)
           Entries,  \* handler entries that may be registered: [n : P, k : {"exact","prefix","sub"}]
-          Reqs,     \* the request lists the dialer uses: sequences of distinct ids
-          Slots,    \* stream slots 1..N (concurrently open streams)
-          MaxTbl,   \* bound on the length of the handler table
+          Reqs,     \* the request lists a dialer uses: sequences of distinct ids
+          Slots,    \* stream slots 1..N (concurrently open streams, either direction)
+          MaxTbl,   \* bound on the length of a handler table
           Tokens,   \* ids the application's first bytes may spell as a well-formed multistream token
           Lazy,     \* TRUE: BasicHost (peerstore knowledge -> lazy select); FALSE: BlankHost (always negotiates)
-          Push      \* TRUE: identify push from B reaches A after every change of B's name set
+          Push,     \* TRUE: identify push reaches the other host after every change of a host's name set
+          Dialers,  \* hosts that open streams
+          Servers   \* hosts that register / remove handlers
 
-VARIABLES tbl,      \* B's handler table: Seq(Entries), names distinct, in the muxer's order
-          K,        \* A's knowledge: ids A's peerstore lists for B (restricted to P)
-          st,       \* [Slots -> [ph, p, h]]  ph in idle | lazy | est ; p: the id A bound; h: entry serving it
+Hosts == {"A", "B"}
+Other(x) == IF x = "A" THEN "B" ELSE "A"
+
+VARIABLES tbl,      \* [Hosts -> Seq(Entries)]: handler table, names distinct, in the muxer's order
+          K,        \* [Hosts -> SUBSET P]: K[x] = ids x's peerstore lists for Other(x)
+          st,       \* [Slots -> [ph, d, p, h]]  ph in idle | lazy | est ; d: dialer; p: the id d bound; h: entry serving it
           op        \* output only: last call, its arguments and the expected observable results
 
 vars == <<tbl, K, st, op>>
 View == <<tbl, K, st>>
 
 NoH == [n |-> "", k |-> ""]
-Idle == [ph |-> "idle", p |-> "", h |-> NoH]
+Idle == [ph |-> "idle", d |-> "", p |-> "", h |-> NoH]
 
 Range(q) == {q[i] : i \in 1..Len(q)}
 Names(t) == {t[i].n : i \in 1..Len(t)}
@@ -71,7 +80,7 @@ ListenerNegotiate(t, p) ==
   THEN CHOOSE i \in 1..Len(t) : Accepts(t[i], p) /\ \A j \in 1..(i - 1) : ~Accepts(t[j], p)
   ELSE 0
 
-\* BasicHost.preferredProtocol: first REQUESTED id that A's peerstore lists for B (0 = none)
+\* BasicHost.preferredProtocol: first REQUESTED id that the dialer's peerstore lists for the listener (0 = none)
 ChooseOptimistic(k, req) ==
   IF Lazy /\ \E i \in 1..Len(req) : req[i] \in k
   THEN CHOOSE i \in 1..Len(req) : req[i] \in k /\ \A j \in 1..(i - 1) : req[j] \notin k
@@ -87,7 +96,7 @@ NegotiateFull(t, req) ==
 \* what the statement calls "a protocol in common"
 Common(t, req) == {p \in Range(req) : \E e \in Range(t) : Accepts(e, p)}
 
-\* identify push: sent only when the SET of names changed; replaces A's list
+\* identify push: sent only when the SET of names changed; replaces the receiver's list
 PushK(t, t1, k) == IF Push /\ Names(t1) # Names(t) THEN Names(t1) ELSE k
 
 AnyLazy == \E s \in Slots : st[s].ph = "lazy"
@@ -96,82 +105,88 @@ AllIdle == \A s \in Slots : st[s].ph = "idle"
 \* table changes while a stream is only served are irrelevant to the statement: keep the graph small
 ChurnOK == AnyLazy \/ ~AnyEst
 
-Init == /\ tbl = <<>>
-        /\ K = {}
+Init == /\ tbl = [x \in Hosts |-> <<>>]
+        /\ K = [x \in Hosts |-> {}]
         /\ st = [s \in Slots |-> Idle]
         /\ op = [name |-> "init"]
 
-Add(e) ==
-  LET t1 == Append(SelectSeq(tbl, LAMBDA x : x.n # e.n), e) IN
+Add(x, e) ==
+  LET t1 == Append(SelectSeq(tbl[x], LAMBDA y : y.n # e.n), e) IN
+  /\ x \in Servers
   /\ ChurnOK
   /\ Len(t1) <= MaxTbl
-  /\ ~(\E i \in 1..Len(tbl) : tbl[i] = e /\ i = Len(tbl))      \* re-adding the last entry changes nothing
-  /\ tbl' = t1
-  /\ K' = PushK(tbl, t1, K)
+  /\ ~(\E i \in 1..Len(tbl[x]) : tbl[x][i] = e /\ i = Len(tbl[x]))      \* re-adding the last entry changes nothing
+  /\ tbl' = [tbl EXCEPT ![x] = t1]
+  /\ K' = [K EXCEPT ![Other(x)] = PushK(tbl[x], t1, @)]
   /\ UNCHANGED st
-  /\ op' = [name |-> "add", n |-> e.n, k |-> e.k]
+  /\ op' = [name |-> "add", at |-> x, n |-> e.n, k |-> e.k]
 
-Remove(n) ==
-  LET t1 == SelectSeq(tbl, LAMBDA x : x.n # n) IN
+Remove(x, n) ==
+  LET t1 == SelectSeq(tbl[x], LAMBDA y : y.n # n) IN
+  /\ x \in Servers
   /\ ChurnOK
-  /\ n \in Names(tbl)
-  /\ tbl' = t1
-  /\ K' = PushK(tbl, t1, K)
+  /\ n \in Names(tbl[x])
+  /\ tbl' = [tbl EXCEPT ![x] = t1]
+  /\ K' = [K EXCEPT ![Other(x)] = PushK(tbl[x], t1, @)]
   /\ UNCHANGED st
-  /\ op' = [name |-> "remove", n |-> n]
+  /\ op' = [name |-> "remove", at |-> x, n |-> n]
 
-Forget ==
-  /\ Lazy /\ AllIdle /\ K # {}
-  /\ K' = {}
+Forget(x) ==
+  /\ Lazy /\ AllIdle /\ x \in Dialers /\ K[x] # {}
+  /\ K' = [K EXCEPT ![x] = {}]
   /\ UNCHANGED <<tbl, st>>
-  /\ op' = [name |-> "forget"]
+  /\ op' = [name |-> "forget", at |-> x]
 
+\* reconnect: identify runs in both directions
 Learn ==
-  /\ Lazy /\ AllIdle /\ K # Names(tbl)
-  /\ K' = Names(tbl)
+  /\ Lazy /\ AllIdle /\ \E x \in Hosts : K[x] # Names(tbl[Other(x)])
+  /\ K' = [x \in Hosts |-> Names(tbl[Other(x)])]
   /\ UNCHANGED <<tbl, st>>
   /\ op' = [name |-> "learn"]
 
 LowestIdle(s) == st[s].ph = "idle" /\ \A r \in Slots : r < s => st[r].ph # "idle"
 
-Open(s, req) ==
+Open(s, d, req) ==
+  /\ d \in Dialers
   /\ LowestIdle(s)
-  /\ LET o == ChooseOptimistic(K, req)
-         f == NegotiateFull(tbl, req) IN
+  /\ LET t == tbl[Other(d)]
+         o == ChooseOptimistic(K[d], req)
+         f == NegotiateFull(t, req) IN
      IF o # 0
-     THEN /\ st' = [st EXCEPT ![s] = [ph |-> "lazy", p |-> req[o], h |-> NoH]]
+     THEN /\ st' = [st EXCEPT ![s] = [ph |-> "lazy", d |-> d, p |-> req[o], h |-> NoH]]
           /\ K' = K
-          /\ op' = [name |-> "open", s |-> s, req |-> req, res |-> "lazy", p |-> req[o], h |-> NoH]
+          /\ op' = [name |-> "open", s |-> s, d |-> d, req |-> req, res |-> "lazy", p |-> req[o], h |-> NoH]
      ELSE IF f # 0
-     THEN LET e == tbl[ListenerNegotiate(tbl, req[f])] IN
-          /\ st' = [st EXCEPT ![s] = [ph |-> "est", p |-> req[f], h |-> e]]
-          /\ K' = K \cup {req[f]}                    \* Peerstore().AddProtocols(p, selected)
-          /\ op' = [name |-> "open", s |-> s, req |-> req, res |-> "est", p |-> req[f], h |-> e]
+     THEN LET e == t[ListenerNegotiate(t, req[f])] IN
+          /\ st' = [st EXCEPT ![s] = [ph |-> "est", d |-> d, p |-> req[f], h |-> e]]
+          /\ K' = [K EXCEPT ![d] = @ \cup {req[f]}]    \* the DIALER's Peerstore().AddProtocols(listener, selected)
+          /\ op' = [name |-> "open", s |-> s, d |-> d, req |-> req, res |-> "est", p |-> req[f], h |-> e]
      ELSE /\ UNCHANGED <<st, K>>
-          /\ op' = [name |-> "open", s |-> s, req |-> req, res |-> "fail", p |-> "", h |-> NoH]
+          /\ op' = [name |-> "open", s |-> s, d |-> d, req |-> req, res |-> "fail", p |-> "", h |-> NoH]
   /\ UNCHANGED tbl
 
-\* q = "": opaque application bytes.  q in Tokens: the first bytes A's application writes are
-\* <varint len>q<newline>, i.e. they read as a multistream proposal of q.  That matters only when B
-\* refuses the optimistically chosen id: B answers "na" and KEEPS negotiating on the bytes that follow
-\* (go-multistream Negotiate loop), so a registered acceptor of q is started on a stream A never asked
-\* q for and which A sees fail ("stray").  Modelled as the code behaves; see NoStray.
+\* q = "": opaque application bytes.  q in Tokens: the first bytes the dialer's application writes are
+\* <varint len>q<newline>, i.e. they read as a multistream proposal of q.  That matters only when the
+\* listener refuses the optimistically chosen id: it answers "na" and KEEPS negotiating on the bytes that
+\* follow (go-multistream Negotiate loop), so a registered acceptor of q is started on a stream the dialer
+\* never asked q for and which the dialer sees fail ("stray").  Modelled as the code behaves; see NoStray.
 Use(s, q) ==
   /\ st[s].ph \in {"lazy", "est"}
-  /\ q # "" => (st[s].ph = "lazy" /\ ListenerNegotiate(tbl, st[s].p) = 0)
-  /\ IF st[s].ph = "est"
-     THEN /\ UNCHANGED st
-          /\ op' = [name |-> "use", s |-> s, first |-> FALSE, res |-> "ok", p |-> st[s].p, h |-> st[s].h,
-                    q |-> "", stray |-> NoH]
-     ELSE LET j == ListenerNegotiate(tbl, st[s].p) IN
-          IF j # 0
-          THEN /\ st' = [st EXCEPT ![s] = [ph |-> "est", p |-> st[s].p, h |-> tbl[j]]]
-               /\ op' = [name |-> "use", s |-> s, first |-> TRUE, res |-> "ok", p |-> st[s].p, h |-> tbl[j],
-                         q |-> "", stray |-> NoH]
-          ELSE LET k == IF q = "" THEN 0 ELSE ListenerNegotiate(tbl, q) IN
-               /\ st' = [st EXCEPT ![s] = Idle]
-               /\ op' = [name |-> "use", s |-> s, first |-> TRUE, res |-> "fail", p |-> st[s].p, h |-> NoH,
-                         q |-> q, stray |-> IF k # 0 THEN tbl[k] ELSE NoH]
+  /\ LET t == tbl[Other(st[s].d)] IN
+     /\ q # "" => (st[s].ph = "lazy" /\ ListenerNegotiate(t, st[s].p) = 0)
+     /\ IF st[s].ph = "est"
+        THEN /\ UNCHANGED st
+             /\ op' = [name |-> "use", s |-> s, first |-> FALSE, res |-> "ok", p |-> st[s].p, h |-> st[s].h,
+                       q |-> "", stray |-> NoH]
+        ELSE LET j == ListenerNegotiate(t, st[s].p) IN
+             IF j # 0
+             THEN /\ st' = [st EXCEPT ![s] = [ph |-> "est", d |-> st[s].d, p |-> st[s].p, h |-> t[j]]]
+                  /\ op' = [name |-> "use", s |-> s, first |-> TRUE, res |-> "ok", p |-> st[s].p, h |-> t[j],
+                            q |-> "", stray |-> NoH]
+             ELSE LET k == IF q = "" THEN 0 ELSE ListenerNegotiate(t, q) IN
+                  /\ st' = [st EXCEPT ![s] = Idle]
+                  /\ op' = [name |-> "use", s |-> s, first |-> TRUE, res |-> "fail", p |-> st[s].p, h |-> NoH,
+                            q |-> q, stray |-> IF k # 0 THEN t[k] ELSE NoH]
   /\ UNCHANGED <<tbl, K>>
 
 Close(s) ==
@@ -179,16 +194,17 @@ Close(s) ==
   /\ st' = [st EXCEPT ![s] = Idle]
   /\ IF st[s].ph = "est"
      THEN op' = [name |-> "close", s |-> s, unused |-> FALSE, p |-> st[s].p, h |-> NoH]
-     ELSE LET j == ListenerNegotiate(tbl, st[s].p) IN     \* Close flushes the lazy handshake
+     ELSE LET t == tbl[Other(st[s].d)]
+              j == ListenerNegotiate(t, st[s].p) IN     \* Close flushes the lazy handshake
           op' = [name |-> "close", s |-> s, unused |-> TRUE, p |-> st[s].p,
-                 h |-> IF j # 0 THEN tbl[j] ELSE NoH]
+                 h |-> IF j # 0 THEN t[j] ELSE NoH]
   /\ UNCHANGED <<tbl, K>>
 
-Next == \/ \E e \in Entries : Add(e)
-        \/ \E n \in P : Remove(n)
-        \/ Forget
+Next == \/ \E x \in Hosts, e \in Entries : Add(x, e)
+        \/ \E x \in Hosts, n \in P : Remove(x, n)
+        \/ \E x \in Hosts : Forget(x)
         \/ Learn
-        \/ \E s \in Slots, req \in Reqs : Open(s, req)
+        \/ \E s \in Slots, d \in Hosts, req \in Reqs : Open(s, d, req)
         \/ \E s \in Slots, q \in Tokens \cup {""} : Use(s, q)
         \/ \E s \in Slots : Close(s)
 
@@ -196,17 +212,20 @@ Spec == Init /\ [][Next]_vars
 
 ----------------------------------------------------------------------------
 (* Observable consequences the replay compares (resource scopes of the two managers) *)
-AOut(p) == Cardinality({s \in Slots : st[s].ph \in {"lazy", "est"} /\ st[s].p = p})
-BIn(p) == Cardinality({s \in Slots : st[s].ph = "est" /\ st[s].p = p})
+Out(x, p) == Cardinality({s \in Slots : st[s].ph \in {"lazy", "est"} /\ st[s].d = x /\ st[s].p = p})
+In(x, p) == Cardinality({s \in Slots : st[s].ph = "est" /\ st[s].d = Other(x) /\ st[s].p = p})
 
 ----------------------------------------------------------------------------
 (* Properties *)
 
-TypeOK == /\ \A i \in 1..Len(tbl) : tbl[i] \in Entries
-          /\ \A i, j \in 1..Len(tbl) : i # j => tbl[i].n # tbl[j].n
-          /\ Len(tbl) <= MaxTbl
-          /\ K \subseteq P
+TypeOK == /\ \A x \in Hosts : /\ \A i \in 1..Len(tbl[x]) : tbl[x][i] \in Entries
+                              /\ \A i, j \in 1..Len(tbl[x]) : i # j => tbl[x][i].n # tbl[x][j].n
+                              /\ Len(tbl[x]) <= MaxTbl
+                              /\ K[x] \subseteq P
           /\ \A s \in Slots : st[s].ph \in {"idle", "lazy", "est"}
+
+\* the listener's table of the stream in slot s
+LT(s) == tbl[Other(st[s].d)]
 
 \* RightHandler, state part: an established stream is served by an entry whose matcher accepts the id
 \* both ends report
@@ -215,22 +234,37 @@ RightHandler == \A s \in Slots : st[s].ph = "est" => Accepts(st[s].h, st[s].p)
 \* Agreement + "one of the requested": the id a successful open binds is requested; the id the
 \* handler's stream reports (op'.p at establishment) is the one the dialer bound at open
 OpenBinds == [][op'.name = "open" /\ op'.res # "fail" => op'.p \in Range(op'.req)]_vars
-Agreement == [][\A s \in Slots : (st[s].ph = "lazy" /\ st'[s].ph = "est") => st'[s].p = st[s].p]_vars
+Agreement == [][\A s \in Slots : (st[s].ph = "lazy" /\ st'[s].ph = "est") => st'[s].p = st[s].p /\ st'[s].d = st[s].d]_vars
 
-\* RightHandler, action part: the entry that starts serving is registered at that moment and is the
-\* first acceptor in table order (the muxer's rule, L2 in the replay); at most one handler per stream
+\* RightHandler, action part: the entry that starts serving is registered at that moment AT THE LISTENER
+\* and is the first acceptor in table order (the muxer's rule, L2 in the replay); one handler per stream
 Dispatch == [][\A s \in Slots : (st[s].ph # "est" /\ st'[s].ph = "est") =>
-                   /\ st'[s].h \in Range(tbl)
-                   /\ st'[s].h = tbl[ListenerNegotiate(tbl, st'[s].p)]]_vars
+                   /\ st'[s].h \in Range(tbl[Other(st'[s].d)])
+                   /\ st'[s].h = tbl[Other(st'[s].d)][ListenerNegotiate(tbl[Other(st'[s].d)], st'[s].p)]]_vars
 OneHandler == [][\A s \in Slots : st[s].ph = "est" /\ st'[s].ph = "est" => st'[s].h = st[s].h]_vars
 
 \* NoCommon: an open with no protocol in common fails at open, or - chosen optimistically - stays
 \* unestablished; a first use / flushing close of an id nobody accepts runs no handler
 NoCommon ==
-  [][/\ (op'.name = "open" /\ Common(tbl, op'.req) = {}) => op'.res \in {"fail", "lazy"} /\ op'.h = NoH
+  [][/\ (op'.name = "open" /\ Common(tbl[Other(op'.d)], op'.req) = {}) => op'.res \in {"fail", "lazy"} /\ op'.h = NoH
      /\ (op'.name \in {"use", "close"} /\ st[op'.s].ph = "lazy"
-           /\ ~\E e \in Range(tbl) : Accepts(e, st[op'.s].p)) => op'.h = NoH /\ st'[op'.s].ph = "idle"
+           /\ ~\E e \in Range(LT(op'.s)) : Accepts(e, st[op'.s].p)) => op'.h = NoH /\ st'[op'.s].ph = "idle"
      /\ (op'.name \in {"open", "use"} /\ op'.res = "fail") => op'.h = NoH]_vars
+
+\* CommonMeansSuccess: with a protocol in common a negotiated open succeeds bound to an id the listener
+\* accepts; it can only be missed through an optimistic choice, and that choice comes from the dialer's
+\* book, whose entries have legitimate sources only (KnowledgeSources): the listener advertised the id
+\* (identify, push) or accepted it as LISTENER of a stream this host dialled.  Streams the other host
+\* opens towards this host never add to this host's book about it.
+CommonMeansSuccess ==
+  [][(op'.name = "open" /\ Common(tbl[Other(op'.d)], op'.req) # {}) =>
+        /\ op'.res # "fail"
+        /\ op'.res = "est" => op'.p \in Common(tbl[Other(op'.d)], op'.req)
+        /\ op'.res = "lazy" => op'.p \in K[op'.d]]_vars
+KnowledgeSources ==
+  [][\A x \in Hosts : \A p \in K'[x] \ K[x] :
+        \/ p \in Names(tbl'[Other(x)])
+        \/ (op'.name = "open" /\ op'.d = x /\ op'.res = "est" /\ op'.p = p)]_vars
 
 \* KNOWN FINDING (payload-parsed-as-proposal): "no application handler runs" fails for a refused
 \* optimistic choice whose application bytes read as a proposal.  NoStray is therefore EXPECTED TO BE
@@ -238,15 +272,17 @@ NoCommon ==
 \* real hosts); every other property holds with the behaviour modelled.
 NoStray == [][op'.name = "use" => op'.stray = NoH]_vars
 
-\* RemovedNeverRuns (model level): whatever serves or is invoked is in the table of that moment
+\* RemovedNeverRuns (model level): whatever serves or is invoked is in the listener's table of that moment
 RemovedNeverRuns ==
   [][(op'.name \in {"open", "use", "close"} /\ op'.h # NoH /\ ~(op'.name = "use" /\ ~op'.first))
-        => op'.h \in Range(tbl)]_vars
+        => op'.h \in Range(tbl[Other(IF op'.name = "open" THEN op'.d ELSE st[op'.s].d)])]_vars
 
 \* vacuity guards (expected to be violated)
 ReachStaleFail == ~(op.name = "use" /\ op.res = "fail")
 ReachLaterWins == ~(op.name = "open" /\ op.res = "lazy" /\ Len(op.req) > 1 /\ op.p # op.req[1]
-                     /\ \E e \in Range(tbl) : Accepts(e, op.req[1]))
+                     /\ \E e \in Range(tbl[Other(op.d)]) : Accepts(e, op.req[1]))
 ReachOverlap == ~(\E s \in Slots : st[s].ph = "est" /\
-                     Cardinality({e \in Range(tbl) : Accepts(e, st[s].p)}) > 1)
+                     Cardinality({e \in Range(LT(s)) : Accepts(e, st[s].p)}) > 1)
+\* both directions established at once (bidirectional instances)
+ReachBothWays == ~(\E s, r \in Slots : st[s].ph = "est" /\ st[r].ph = "est" /\ st[s].d # st[r].d)
 =============================================================================
